@@ -60,6 +60,7 @@ OPTIONS = [
     ("required int=5", {"type": "integer", "default": 5}, lambda: Integer(default=5), True, 7, 7, True, 5),
     # compositions of trivial members only: each keeps its own default
     ("allOf[{}]=3", {"allOf": [{}], "default": 3}, lambda: Element(default=3), False, "s", "s", True, 3),
+    ("untyped=[[{z:1}]]", {"default": [[{"z": 1}], {"l": [[{"y": 0}]]}]}, lambda: Element(default=[[{"z": 1}], {"l": [[{"y": 0}]]}]), False, 1, 1, True, [[{"z": 1}], {"l": [[{"y": 0}]]}]),
     ("anyOf[true]='none'", {"anyOf": [True], "default": "none"}, lambda: Element(default="none"), False, 1, 1, True, "none"),
 ]
 NAMES = [("a", "a"), ("class", "class_"), ("a b", "a_b")]
@@ -69,7 +70,7 @@ ADDITIONAL = [
     ("schema", {"type": "integer"}, lambda: Integer()),
     ("schema+default", {"type": "integer", "default": 99}, lambda: Integer(default=99)),
 ]
-FORMS = ["parsed-typed", "parsed-untyped", "dsl-class", "inline", "element-properties",
+FORMS = ["parsed-typed", "parsed-typed-labelled", "parsed-untyped", "dsl-class", "inline", "element-properties",
          "parsed-typed+pattern", "dsl-class+pattern", "element-properties+pattern"]  # +pattern: a patternProperties pattern matches every declared name as well
 
 
@@ -88,8 +89,16 @@ def build(form, props, addl):
         req = [jn for jn, pn, oi in props if OPTIONS[oi][3]]
         if req:
             schema["required"] = req
-        if form == "parsed-typed":
+        if form in ("parsed-typed", "parsed-typed-labelled"):
             schema.update(type="object", title="Model")
+        if form == "parsed-typed-labelled":
+            # through the reference resolver and the title labeller, as the command line does
+            from mc import docs
+            from statham.schema.parser import parse
+
+            el = parse(docs.load(schema))[0]
+            docs.clear()
+            return el
         kind, el = impl.do_parse(schema)
         if kind != impl.ELEMENT:
             raise RuntimeError("parse failed: %r" % (el,))
